@@ -105,6 +105,13 @@ bool ops_image(Ctx& c, const json& s, int idx, bool& handled) {
 				else if (throws([&] { b.Validate(); })) why = "Validate() refuses what ReadIndexed returned";
 				if (!why.empty()) Proto::mismatch(fsite + "/postcondition", "accepted-invalid-bitmap", where(why)); }
 			if (!err) { useBitmap(b);
+				if (kind == "tileset") { at("postcondition");      // C09: whatever the detecting loader accepts can be saved in the custom format and loads back as the same picture
+					std::string why; std::vector<unsigned char> saved; BitmapFile again;
+					{ Stream::DynamicMemoryWriter w; if (throws([&] { Tileset::WriteCustomTileset(w, b); saved = dyn_bytes(w); })) why = "the custom-format writer refuses what the loader returned"; }
+					if (why.empty()) { Stream::MemoryReader r2(saved.data(), saved.size()); if (throws([&] { again = Tileset::ReadTileset(r2); })) why = "the saved tileset does not load";
+						else { BitmapFile t = b; if (t.GetScanLineOrientation() == ScanLineOrientation::BottomUp) t.InvertScanLines(); if (again.pixels != t.pixels || again.imageHeader.height != t.imageHeader.height) why = "the saved tileset loads as a different picture";
+							for (std::size_t i = 0; i < b.palette.size() && why.empty(); ++i) if (!(again.palette[i] == b.palette[i])) why = "palette entry " + std::to_string(i) + " differs after the round trip"; } }
+					if (!why.empty()) Proto::mismatch(fsite + "/postcondition", "accepted-tileset-does-not-round-trip", where(why)); }
 				if (kind == "tileset" && fault != "none") { at("load");         // a loaded tileset satisfies the tileset constraints
 					if (b.imageHeader.bitCount != 8 || b.imageHeader.width != 32 || b.imageHeader.height % 32 != 0) { Proto::mismatch(fsite, "constraint-violating-tileset-loaded", where("")); return false; } } } }
 		else { auto art = std::make_shared<ArtFile>(); Stream::MemoryReader r(img.data(), img.size()); at("load");
